@@ -153,6 +153,15 @@ func doInject(c *cdi.Cache, hosts []hostNode, init *oci.Spec, names []string, im
 	}
 	st.unres = unres
 	st.after = work
+	if checkWB {
+		// C14: applying a cached device's or Spec's edits directly must leave the cache alone as well
+		for _, n := range c.ListDevices() {
+			if d := c.GetDevice(n); d != nil {
+				_, _ = hx.Guard(func() { _ = d.ApplyEdits(&oci.Spec{}) })
+				_, _ = hx.Guard(func() { _ = d.GetSpec().ApplyEdits(&oci.Spec{}) })
+			}
+		}
+	}
 	st.same = cacheImage(c) == image0
 	st.wb = true
 	if checkWB {
@@ -224,6 +233,10 @@ func genInjectSuite(r *hx.R, tier, scratch, prop string) (*hx.Suite, error) {
 				}
 				if len(names) > 0 && r.Chance(0.15) {
 					x = hx.Pick(r, names) // repetition
+				}
+				if r.Chance(0.12) {
+					// blank-padded spellings (of resolvable names too): not the name itself, hence a miss, returned verbatim
+					x = hx.Pick(r, []string{" ", "\t", "\n", ""}) + x + hx.Pick(r, []string{" ", "\n", "\t", " \n"})
 				}
 				names = append(names, x)
 				if rs[x] {
